@@ -95,6 +95,7 @@ class ScriptedSocket:
         self.closed = False
         self.timeout = None
         self.send_fault = None
+        self.seconds_per_recv = 0.0
         server.on_connect()
 
     # -- socket API used by the client
@@ -136,6 +137,8 @@ class ScriptedSocket:
         chunk = bytes(buf[:k])
         del buf[:k]
         self.wire.log("recv", chunk)
+        if self.seconds_per_recv:
+            let_time_pass(self.seconds_per_recv)  # below any socket time-out, every time
         return chunk
 
     def close(self):
@@ -187,7 +190,20 @@ class TLSSocket(ssl.SSLSocket):
         pass
 
 
+# Virtual time: the library under test may measure time (time.monotonic / time.time are
+# re-bound to these while a client call runs, rv/mslab.py); the transport lets time pass
+# WITHOUT any recv() timing out - a slow but steady link, a long TLS handshake, an idle
+# period between two sessions.
+VCLOCK = {"offset": 0.0}
+
+
+def let_time_pass(seconds):
+    VCLOCK["offset"] += seconds
+
+
 class FakeTLSContext:
+    handshake_seconds = 0.0
+
     def __init__(self, outcome="ok"):
         self.outcome = outcome
 
@@ -197,6 +213,7 @@ class FakeTLSContext:
     def wrap_socket(self, sock, server_hostname=None, **kw):
         inner = sock.inner if isinstance(sock, TLSSocket) else sock
         inner.wire.log("tls-handshake", (server_hostname or "").encode())
+        let_time_pass(self.handshake_seconds)
         if self.outcome == "ok":
             return TLSSocket(inner)
         if self.outcome == "SSLError":
